@@ -207,6 +207,7 @@ int cif_loop_set_category(cif_loop_tp *loop, const UChar *category) {
         cif_tp *cif = container->cif;
 
         if (cif == NULL) {
+            free(category_temp);
             return CIF_ERROR;
         } else {
             FAILURE_HANDLING;
